@@ -134,7 +134,7 @@ def check_proofs(pid, modules, log, thorough=False):
                 continue
             names = theorem_names(path)
             ns = "Rosmar."
-            p = sh(["lake", "build", mod], cwd=LEAN)
+            p = sh(["lake", "build", mod], cwd=LEAN, timeout=1500)
             if p.returncode != 0:
                 errs = re.findall(r"error: [^\n]*\n?[^\n]*", p.stdout + p.stderr)
                 log.setdefault("build_errors", []).extend(e.strip()[:400] for e in errs[:8])
